@@ -46,11 +46,19 @@ WRONG = {
     "T-fnopt": ["g_fn", "g_fsop", "g_fs", "g_f2", "7"],
     "T-obj": ["g_other", "g_oobj", "7", "g_lobj"],
     "T-lobj": ["g_olobj", "g_list", "g_obj"],
+    # a class of ANOTHER module that has the same name (and the same members) as the expected class: a different type all the same
+    "T-twin": ["tb_twin", "tb.mk()", "tb.Pt(3)", "g_obj"],
+    "T-ltwin": ["tb_ltwin", "[tb.mk()]", "g_lobj"],
     "T-optint": ["g_ostr", "\"txt\"", "g_list", "g_oilist"],
 }
 # expected type text, a well-typed value, whether the declaration must be const
 TYPED = {"T-list": ("[int...]", "g_list", False), "T-fixed": ("[int, int]", "g_pair", True), "T-fixed2": ("[str, int]", "g_pair_si", True), "T-map": ("map[str, int]", "g_map", False), "T-fn": ("fn(int) -> int", "g_fn", False), "T-fnopt": ("fn(int?) -> int", "g_fop", False),
-         "T-obj": ("G", "g_obj", False), "T-lobj": ("[G...]", "g_lobj", False), "T-optint": ("int?", "g_oint", False)}
+         "T-obj": ("G", "g_obj", False), "T-lobj": ("[G...]", "g_lobj", False), "T-optint": ("int?", "g_oint", False),
+         "T-twin": ("Pt", "ta_mk()", False), "T-ltwin": ("[Pt...]", "ta_lmk()", False)}
+TWIN_CLASS = "export class Pt {\n\tn: int\n\tconstructor(self, n: int) {\n\t\tself.n = n\n\t}\n\tfn get_n(self) -> int {\n\t\treturn self.n\n\t}\n}\n"
+TWIN_FILES = {"ta.ms": TWIN_CLASS + "export ta_mk: fn() -> Pt = fn() -> Pt {\n\treturn Pt(1)\n}\nexport ta_lmk: fn() -> [Pt...] = fn() -> [Pt...] {\n\tl: [Pt...] = [Pt(1)]\n\treturn l\n}\n",
+              "tb.ms": TWIN_CLASS + "export mk: fn() -> Pt = fn() -> Pt {\n\treturn Pt(2)\n}\nexport lmk: fn() -> [Pt...] = fn() -> [Pt...] {\n\tl: [Pt...] = [Pt(2)]\n\treturn l\n}\n"}
+TWIN_IMPORTS = "import Pt, ta_mk, ta_lmk from ta\nimport tb\ntb_twin = tb.mk()\ntb_ltwin = tb.lmk()\n"
 POSITIONS = ["decl", "reassign", "argument", "return", "return-method", "return-closure", "field-init", "field-assign", "element", "push", "mapvalue", "branch-return"]
 PRELUDE = """g_list: [int...] = [1, 2, 3]
 g_fn = fn(u: int) -> int {
@@ -806,7 +814,10 @@ def position_matrix():
             elif pos == "mapvalue":
                 b.add("m1 = map[str, %s] {\"k\": %s}" % (ty, site()))
             b.add("print \"@END\"")
-            out.append({"files": {"main.ms": PRELUDE + "\n".join(b.lines) + "\n"}, "sites": list(b.sites), "matrix": "%s|%s" % (pos, fam)})
+            files = {"main.ms": PRELUDE + "\n".join(b.lines) + "\n"}
+            if fam in ("T-twin", "T-ltwin"):
+                files = dict(TWIN_FILES, **{"main.ms": TWIN_IMPORTS + files["main.ms"]})
+            out.append({"files": files, "sites": list(b.sites), "matrix": "%s|%s" % (pos, fam)})
     return out
 
 
